@@ -156,3 +156,308 @@ Definition uv_cond_timedwait_model (add : Z -> Z -> Z) (timeout hr : Z)
            (wait : Z * Z -> Z) : option Z * (Z * Z) :=
   let ts := deadline_with add timeout hr in
   (uv_cond_timedwait_code (wait ts), ts).
+
+(* ------------------------------------------------------------------ *)
+(* Part E: interleaving models.
+
+   Threads are numbered 0..n-1.  Every thread is always parked *at* a
+   synchronisation operation (uv_mutex_lock/trylock/unlock, uv_cond_wait,
+   uv_cond_signal/broadcast).  One atomic step of thread t = perform the
+   operation it is parked at (if it is enabled) and run its local code up to,
+   but not including, the next synchronisation operation.  uv_cond_wait is two
+   steps: "enter" (release the mutex, start waiting) and "wake" (enabled when
+   the thread has been signalled -- or the schedule asks for a spurious
+   wake-up -- and the mutex is free: re-acquire it and go on).
+   A schedule is a list of choices (thread, aux); aux = 1 on a waiting thread
+   means "spurious wake-up"; on uv_cond_signal aux selects which waiter is
+   released.  A choice whose thread is not enabled leaves the state unchanged
+   (recorded as a skip), so the same schedule can be replayed on the real code
+   under the serialising scheduler of harness/c20_sched.c. *)
+
+Record choice := mkChoice { who : nat; aux : nat }.
+
+(* the operation a step performed, as the serialising scheduler sees it *)
+Inductive sop := OpLock | OpTry | OpUnlock | OpWait | OpWake | OpSignal | OpBcast.
+
+(* --------------------------- barrier ------------------------------ *)
+Inductive bpc :=
+| BLock                (* about to uv_mutex_lock: start of a uv_barrier_wait call *)
+| BW1e                 (* holds the mutex; about to uv_cond_wait in while (b->out != 0) *)
+| BW1w (sg : bool)     (* in that uv_cond_wait; sg = has been signalled *)
+| BBc1                 (* holds; flipped in/out; about to uv_cond_broadcast *)
+| BW2e                 (* holds; about to uv_cond_wait in do .. while (b->in != 0) *)
+| BW2w (sg : bool)
+| BBc2                 (* holds; last leaver; about to uv_cond_broadcast *)
+| BUnl (last : bool)   (* holds; about to uv_mutex_unlock and return last *)
+| BDone.
+
+Record bthread := mkBT { bt_pc : bpc; bt_rem : nat (* calls still to make *) }.
+
+Inductive bevent :=
+| BECall (t : nat)               (* thread t entered uv_barrier_wait (got the mutex) *)
+| BEJoin (t : nat)               (* ++b->in executed by t *)
+| BELeave (t : nat) (last : bool)(* --b->out executed by t *)
+| BERet (t : nat) (last : bool). (* uv_barrier_wait returned last to t *)
+
+Record bstate := mkB {
+  b_in : Z; b_out : Z; b_thr : Z;          (* struct _uv_barrier *)
+  b_owner : option nat;                    (* who holds b->mutex *)
+  b_ths : list bthread;
+  b_gen : Z;                               (* ghost: number of completed flips *)
+  b_trace : list bevent                    (* ghost: newest first *)
+}.
+
+Definition binit (threshold : Z) (rems : list nat) : bstate :=
+  mkB 0 0 threshold None
+      (map (fun r => mkBT (match r with O => BDone | _ => BLock end) r) rems) 0 [].
+
+Definition bget (s : bstate) (t : nat) : option bthread := nth_error (b_ths s) t.
+
+Definition bset_pc (s : bstate) (t : nat) (p : bpc) : bstate :=
+  mkB (b_in s) (b_out s) (b_thr s) (b_owner s)
+      (upd t (fun th => mkBT p (bt_rem th)) (b_ths s)) (b_gen s) (b_trace s).
+Definition bset_owner (s : bstate) (o : option nat) : bstate :=
+  mkB (b_in s) (b_out s) (b_thr s) o (b_ths s) (b_gen s) (b_trace s).
+Definition bemit (s : bstate) (e : bevent) : bstate :=
+  mkB (b_in s) (b_out s) (b_thr s) (b_owner s) (b_ths s) (b_gen s) (e :: b_trace s).
+
+(* uv_cond_broadcast: every waiter becomes signalled *)
+Definition bwake (th : bthread) : bthread :=
+  match bt_pc th with
+  | BW1w _ => mkBT (BW1w true) (bt_rem th)
+  | BW2w _ => mkBT (BW2w true) (bt_rem th)
+  | _ => th
+  end.
+Definition bbroadcast (s : bstate) : bstate :=
+  mkB (b_in s) (b_out s) (b_thr s) (b_owner s) (map bwake (b_ths s)) (b_gen s) (b_trace s).
+
+(* last = (--b->out == 0); if (last) broadcast ... ; unlock *)
+Definition bleave (s : bstate) (t : nat) : bstate :=
+  let o := wrap32 (b_out s - 1) in
+  let last := o =? 0 in
+  let s1 := mkB (b_in s) o (b_thr s) (b_owner s) (b_ths s) (b_gen s)
+                (BELeave t last :: b_trace s) in
+  bset_pc s1 t (if last then BBc2 else BUnl false).
+
+(* with the mutex held: while (b->out != 0) wait; if (++b->in == threshold) {...} else do wait .. *)
+Definition bgate (s : bstate) (t : nat) : bstate :=
+  if negb (b_out s =? 0) then bset_pc s t BW1e
+  else
+    let i := wrap32 (b_in s + 1) in
+    if i =? b_thr s then
+      bset_pc (mkB 0 (b_thr s) (b_thr s) (b_owner s) (b_ths s) (b_gen s + 1)
+                   (BEJoin t :: b_trace s)) t BBc1
+    else
+      bset_pc (mkB i (b_out s) (b_thr s) (b_owner s) (b_ths s) (b_gen s)
+                   (BEJoin t :: b_trace s)) t BW2e.
+
+Definition is_free (o : option nat) : bool := match o with None => true | Some _ => false end.
+
+(* one step of thread [who c]; None = not enabled *)
+Definition bstep (s : bstate) (c : choice) : option (bstate * sop) :=
+  let t := who c in
+  match bget s t with
+  | None => None
+  | Some th =>
+    match bt_pc th with
+    | BLock =>
+        if is_free (b_owner s)
+        then Some (bgate (bemit (bset_owner s (Some t)) (BECall t)) t, OpLock) else None
+    | BW1e => Some (bset_pc (bset_owner s None) t (BW1w false), OpWait)
+    | BW1w sg =>
+        if (sg || (aux c =? 1)%nat) && is_free (b_owner s)
+        then Some (bgate (bset_owner s (Some t)) t, OpWake) else None
+    | BBc1 => Some (bleave (bbroadcast s) t, OpBcast)
+    | BW2e => Some (bset_pc (bset_owner s None) t (BW2w false), OpWait)
+    | BW2w sg =>
+        if (sg || (aux c =? 1)%nat) && is_free (b_owner s)
+        then let s1 := bset_owner s (Some t) in
+             Some (if negb (b_in s1 =? 0) then bset_pc s1 t BW2e else bleave s1 t, OpWake)
+        else None
+    | BBc2 => Some (bset_pc (bbroadcast s) t (BUnl true), OpBcast)
+    | BUnl last =>
+        let r := pred (bt_rem th) in
+        let s1 := bemit (bset_owner s None) (BERet t last) in
+        Some (mkB (b_in s1) (b_out s1) (b_thr s1) (b_owner s1)
+                  (upd t (fun _ => mkBT (match r with O => BDone | _ => BLock end) r) (b_ths s1))
+                  (b_gen s1) (b_trace s1), OpUnlock)
+    | BDone => None
+    end
+  end.
+
+Definition bstep_state (s : bstate) (c : choice) : bstate :=
+  match bstep s c with Some (s', _) => s' | None => s end.
+
+Definition brun (s : bstate) (sched : list choice) : bstate := fold_left bstep_state sched s.
+
+(* what the driver prints per choice: the operation (None = skipped), b->in, b->out
+   and the value returned to the caller in this step, if any *)
+Definition bret_of (s s' : bstate) : option bool :=
+  match b_trace s' with
+  | BERet _ l :: _ => if (length (b_trace s') =? length (b_trace s))%nat then None else Some l
+  | _ => None
+  end.
+Fixpoint brun_log (s : bstate) (sched : list choice)
+  : list (nat * option sop * Z * Z * option bool) * bstate :=
+  match sched with
+  | [] => ([], s)
+  | c :: rest =>
+      match bstep s c with
+      | None => let (l, f) := brun_log s rest in ((who c, None, b_in s, b_out s, None) :: l, f)
+      | Some (s', op) =>
+          let (l, f) := brun_log s' rest in
+          ((who c, Some op, b_in s', b_out s', bret_of s s') :: l, f)
+      end
+  end.
+
+(* final verdict: 0 all threads done, 1 somebody can still move (without a
+   spurious wake-up), 2 nobody can: deadlock *)
+Definition ball_done (s : bstate) : bool :=
+  forallb (fun th => match bt_pc th with BDone => true | _ => false end) (b_ths s).
+Definition bany_enabled (s : bstate) : bool :=
+  existsb (fun t => match bstep s (mkChoice t 0) with Some _ => true | None => false end)
+          (seq 0 (length (b_ths s))).
+Definition bverdict (s : bstate) : Z :=
+  if ball_done s then 0 else if bany_enabled s then 1 else 2.
+
+(* ----------------------- custom semaphore ------------------------- *)
+Inductive semop := SPost | SWait | STry.
+
+Inductive spc :=
+| SIdle                (* parked at the uv_mutex_lock / uv_mutex_trylock of the next operation *)
+| SPSig                (* post: holds; value became 1; about to uv_cond_signal *)
+| SPUnl                (* post: holds; about to uv_mutex_unlock *)
+| SWe                  (* wait: holds; value == 0; about to uv_cond_wait *)
+| SWw (sg : bool)      (* wait: inside uv_cond_wait *)
+| SWUnl                (* wait: holds; decremented; about to unlock *)
+| STUnl (ok : bool)    (* trywait: holds; about to unlock; ok = decremented *)
+| SDone.
+
+Record sthread := mkST { st_pc : spc; st_prog : list semop }.
+
+Inductive sevent :=
+| SEInc (t : nat)              (* sem->value++ *)
+| SEDec (t : nat)              (* sem->value-- (a pass) *)
+| SERet (t : nat) (code : Z).  (* the operation returned (0, or UV_EAGAIN from trywait) *)
+
+Record sstate := mkS {
+  s_value : Z;
+  s_owner : option nat;
+  s_ths : list sthread;
+  s_trace : list sevent
+}.
+
+Definition sinit (value : Z) (progs : list (list semop)) : sstate :=
+  mkS value None
+      (map (fun p => mkST (match p with [] => SDone | _ => SIdle end) p) progs) [].
+
+Definition sget (s : sstate) (t : nat) : option sthread := nth_error (s_ths s) t.
+Definition sset_pc (s : sstate) (t : nat) (p : spc) : sstate :=
+  mkS (s_value s) (s_owner s) (upd t (fun th => mkST p (st_prog th)) (s_ths s)) (s_trace s).
+Definition sset_owner (s : sstate) (o : option nat) : sstate :=
+  mkS (s_value s) o (s_ths s) (s_trace s).
+Definition semit (s : sstate) (e : sevent) : sstate :=
+  mkS (s_value s) (s_owner s) (s_ths s) (e :: s_trace s).
+Definition sset_value (s : sstate) (v : Z) : sstate :=
+  mkS v (s_owner s) (s_ths s) (s_trace s).
+
+(* the operation at the head of the program finished with [code] *)
+Definition sfinish (s : sstate) (t : nat) (code : Z) : sstate :=
+  let s1 := semit s (SERet t code) in
+  mkS (s_value s1) (s_owner s1)
+      (upd t (fun th => let p := tl (st_prog th) in
+                        mkST (match p with [] => SDone | _ => SIdle end) p) (s_ths s1))
+      (s_trace s1).
+
+(* uv_cond_signal: release the k-th (mod their number) un-signalled waiter, in thread order *)
+Definition swaiting (th : sthread) : bool :=
+  match st_pc th with SWw false => true | _ => false end.
+Fixpoint ssignal_nth (k : nat) (l : list sthread) : list sthread :=
+  match l with
+  | [] => []
+  | th :: rest =>
+      if swaiting th then
+        match k with
+        | O => mkST (SWw true) (st_prog th) :: rest
+        | S k' => th :: ssignal_nth k' rest
+        end
+      else th :: ssignal_nth k rest
+  end.
+Definition scount_waiting (l : list sthread) : nat := length (filter swaiting l).
+Definition ssignal (s : sstate) (k : nat) : sstate :=
+  let n := scount_waiting (s_ths s) in
+  match n with
+  | O => s
+  | _ => mkS (s_value s) (s_owner s) (ssignal_nth (Nat.modulo k n) (s_ths s)) (s_trace s)
+  end.
+
+(* uv__custom_sem_wait with the mutex held: while (value == 0) wait; value--; *)
+Definition sgate (s : sstate) (t : nat) : sstate :=
+  if s_value s =? 0 then sset_pc s t SWe
+  else sset_pc (semit (sset_value s (wrap32 (s_value s - 1))) (SEDec t)) t SWUnl.
+
+Definition sstep (s : sstate) (c : choice) : option (sstate * sop) :=
+  let t := who c in
+  match sget s t with
+  | None => None
+  | Some th =>
+    match st_pc th with
+    | SIdle =>
+        match st_prog th with
+        | [] => None
+        | SPost :: _ =>
+            if is_free (s_owner s) then
+              let v := wrap32 (s_value s + 1) in
+              let s1 := semit (sset_value (sset_owner s (Some t)) v) (SEInc t) in
+              Some (sset_pc s1 t (if v =? 1 then SPSig else SPUnl), OpLock)
+            else None
+        | SWait :: _ =>
+            if is_free (s_owner s) then Some (sgate (sset_owner s (Some t)) t, OpLock) else None
+        | STry :: _ =>
+            if is_free (s_owner s) then
+              let s1 := sset_owner s (Some t) in
+              if s_value s1 =? 0 then Some (sset_pc s1 t (STUnl false), OpTry)
+              else Some (sset_pc (semit (sset_value s1 (wrap32 (s_value s1 - 1))) (SEDec t))
+                                 t (STUnl true), OpTry)
+            else Some (sfinish s t UV_EAGAIN, OpTry)
+        end
+    | SPSig => Some (sset_pc (ssignal s (aux c)) t SPUnl, OpSignal)
+    | SPUnl => Some (sfinish (sset_owner s None) t 0, OpUnlock)
+    | SWe => Some (sset_pc (sset_owner s None) t (SWw false), OpWait)
+    | SWw sg =>
+        if (sg || (aux c =? 1)%nat) && is_free (s_owner s)
+        then Some (sgate (sset_owner s (Some t)) t, OpWake) else None
+    | SWUnl => Some (sfinish (sset_owner s None) t 0, OpUnlock)
+    | STUnl ok => Some (sfinish (sset_owner s None) t (if ok then 0 else UV_EAGAIN), OpUnlock)
+    | SDone => None
+    end
+  end.
+
+Definition sstep_state (s : sstate) (c : choice) : sstate :=
+  match sstep s c with Some (s', _) => s' | None => s end.
+Definition srun (s : sstate) (sched : list choice) : sstate := fold_left sstep_state sched s.
+
+Definition sret_of (s s' : sstate) : option Z :=
+  match s_trace s' with
+  | SERet _ code :: _ => if (length (s_trace s') =? length (s_trace s))%nat then None else Some code
+  | _ => None
+  end.
+Fixpoint srun_log (s : sstate) (sched : list choice)
+  : list (nat * option sop * option Z) * sstate :=
+  match sched with
+  | [] => ([], s)
+  | c :: rest =>
+      match sstep s c with
+      | None => let (l, f) := srun_log s rest in ((who c, None, None) :: l, f)
+      | Some (s', op) =>
+          let (l, f) := srun_log s' rest in ((who c, Some op, sret_of s s') :: l, f)
+      end
+  end.
+
+Definition sall_done (s : sstate) : bool :=
+  forallb (fun th => match st_pc th with SDone => true | _ => false end) (s_ths s).
+Definition sany_enabled (s : sstate) : bool :=
+  existsb (fun t => match sstep s (mkChoice t 0) with Some _ => true | None => false end)
+          (seq 0 (length (s_ths s))).
+Definition sverdict (s : sstate) : Z :=
+  if sall_done s then 0 else if sany_enabled s then 1 else 2.
